@@ -14,12 +14,12 @@ variable {off : Nat} {w : List Char} {Pv : Array (Ev α) → Prop} {ts : List To
 /-- every content token between cursor `c` and the cursor after is carried by the returned event, or an
     `Error` was pushed -/
 def CompGood (tb : CharSpec) (ts : List Tok) (c : Nat) (r : Option (Ev α)) (s' : BP α) : Prop :=
-  ∀ ev, r = some ev → ∀ i t, c ≤ i → i < s'.cur → ts[i]? = some t → Core tb t →
-    HasErr s'.evs ∨ ev.carries tb (tokBodyStart t) t.stop
+  ∀ ev, r = some ev → ∀ i t, c ≤ i → i < s'.cur → ts[i]? = some t → CoreTok tb t →
+    HasErrEv s'.evs ∨ ev.carries tb (tokBodyStart t) t.stop
 
 /-- the quantity of the timer carries the content tokens between the braces -/
 def TimerQ (tb : CharSpec) (body : Body) (qo : Option (Loc (PQuantity α))) : Prop :=
-  ∀ qt, body.quantity = some qt → ∀ t ∈ qt, Core tb t →
+  ∀ qt, body.quantity = some qt → ∀ t ∈ qt, CoreTok tb t →
     ∃ lq, qo = some lq ∧ QtyHolds tb lq.val (tokBodyStart t) t.stop
 
 theorem TimerQ.ofNone {tb : CharSpec} {body : Body} {qo : Option (Loc (PQuantity α))} (h : TimerQ tb body qo)
@@ -54,7 +54,7 @@ theorem timerP_fc {tb : CharSpec} (hup : UpP Pv) (hw : WFI off w ts) (h : GE Pv 
       refine Sat.bind (currentOffset_sat g3.g ?_)
       try simp -zeta only
       extract_lets +onlyGivenNames -underBinder jp1
-      have hjp1 : ∀ (Pv' : Array (Ev α) → Prop), UpP Pv' → (mtoks = [] ∨ ∀ evs, Pv' evs → HasErr evs) →
+      have hjp1 : ∀ (Pv' : Array (Ev α) → Prop), UpP Pv' → (mtoks = [] ∨ ∀ evs, Pv' evs → HasErrEv evs) →
           ∀ (r : Unit) (s4 : BP α), GE Pv' ts e s4 → s4.cur = s3.cur → s4.cs = tb → Sat (jp1 r) s4
           (fun r s' => GE Pv' ts e s' ∧ CompGood tb ts s.cur r s') := by
         intro Pv' hup' hme r s4 g4 c4 cs4
@@ -104,7 +104,7 @@ theorem timerP_fc {tb : CharSpec} (hup : UpP Pv) (hw : WFI off w ts) (h : GE Pv 
             simp -zeta only [jp3]
             try simp -zeta only
             extract_lets +onlyGivenNames -underBinder nameO jp4
-            have hnO : ∀ t ∈ body.name, Core tb t → OptHolds nameO (tokBodyStart t) t.stop := by
+            have hnO : ∀ t ∈ body.name, CoreTok tb t → OptHolds nameO (tokBodyStart t) t.stop := by
               intro t ht hc
               have hne : (buildText (offAt ts s2.cur) body.name).isTextEmpty cs = false := by
                 simp only [cs]; rw [hcs6]; exact frag_run_not_empty ht hc
